@@ -39,7 +39,7 @@ func runnyBitmap(c *runner.Ctx, n int, pattern int) *roaring.Bitmap {
 
 func c15Run(c *runner.Ctx) {
 	r := c.R
-	w, err := gen.GenWorld(r, c.TmpDir, fmt.Sprintf("w%d", c.Idx), gen.WorldOpts{MaxDocs: 150, MinDocs: 2, Jumbo: c.Idx == 0})
+	w, err := gen.GenWorld(r, c.TmpDir, fmt.Sprintf("w%d", c.Idx), gen.WorldOpts{MaxDocs: 150, MinDocs: 2, Jumbo: c.Idx%100 == 0})
 	if err != nil {
 		c.Note(fmt.Sprintf("case %d: world construction failed (C01/C02/C04's business): %s", c.Idx, firstLine(err.Error())))
 		return
@@ -224,7 +224,7 @@ func init() {
 		Rule: "cases = worlds (memory- and file-backed segments, one jumbo); snapshot of every segment (WriteTo bytes + full observation incl. statistics) and of every caller bitmap (ToBytes + contents) handed to Merge or PostingsList; 40-120 operations mixing merges with all deletion patterns and chunk modes (bitmaps with long runs in array/bitmap containers, so an in-place RunOptimize changes ToBytes), postings reads with exclusion bitmaps, DocsMatchingTerms whose RETURNED bitmap is then mutated (Add/Remove/AddRange/RunOptimize/Clear), persists and full observations; snapshots re-checked every 25 steps and at the end; " +
 			"evaluations = snapshot comparisons; non-trivial = completed sequence (distinct by case and operation log)",
 		Assumptions: append([]string{"the bitmap returned by PostingsIterator.ActualBitmap() is documented as shared and is never mutated by the harness"}, InputContract...),
-		Phases:      []runner.Phase{{Name: "sequences", Cases: cases(120, 3000), Run: c15Run}},
+		Phases:      []runner.Phase{{Name: "sequences", Cases: cases(400, 10000), Run: c15Run}},
 		Floors: func(string) map[string]int64 {
 			return map[string]int64{"deletion_bitmaps_watched": 2000, "ops.postings_with_exclusion": 2000, "ops.docs_matching_terms_mutated": 500, "segments_watched.loaded-file": 50, "segments_watched.loaded-mem": 50}
 		},
